@@ -90,8 +90,13 @@ def _one(R, rng, i):
     layout = rng.choice(["3d", "3d", "4d", "rgb"])
     shape = [rng.choice([1, 1, 2, 3, 4, 5, 7, 8, 9, 13, rng.randrange(1, 14)]) for _ in range(3)]
     many_shards = i == 10          # 4096 one-voxel chunks spread over 512 shard files, each visited 8 times
+    # a 3 x 3 x 1 chunk grid in one shard with 8 minishards: the chunk identifiers 0,1,2,3,4,6,8,9,12 leave
+    # minishard 5 (and 7) unused BETWEEN used ones, and several holes inside the used identifier range
+    gappy = i in (11, 12)          # 12: the same grid in ONE minishard (three separate holes: 5, 7, 10-11)
     if many_shards:
         shape = [16, 16, 16]
+    if gappy:
+        shape = [12, 12, 4]
     disk = rng.choice(DISK)
     forced_huge = {6: ("float64", "uint64"), 7: ("float32", "uint64"), 8: ("float32", "uint32"),
                    9: ("float64", "uint16")}.get(i)
@@ -116,7 +121,7 @@ def _one(R, rng, i):
         slope, inter = rng.choice([(2.0, 0.0), (0.5, 1.0), (-1.0, 10.0), (1.0, -3.0)])
     nii = os.path.join(d, "vol.nii" + rng.choice(["", ".gz"]))
     storage = rng.choice(["deep-gz", "flat-gz", "deep", "flat", "sharded", "sharded-gz"])
-    if many_shards:
+    if many_shards or gappy:
         storage = "sharded"
     # anisotropic voxel sizes give anisotropic chunk sizes (sharded storage needs cubic chunks)
     vox = (1.0, 1.0, 1.0)
@@ -165,6 +170,8 @@ def _one(R, rng, i):
     tcs = rng.choice([1, 2, 4, 8])
     if many_shards:
         tcs = 1
+    if gappy:
+        tcs = 4
     out = os.path.join(d, "out")
 
     gen_args = ["--generate-info"]
@@ -178,7 +185,10 @@ def _one(R, rng, i):
         conv_opts += ["--input-max", in_minmax[1]]
         gen_args += conv_opts[-4:] if in_minmax[0] is not None else conv_opts[-2:]
     if storage.startswith("sharded"):
-        gen_args += ["--sharding", "0,9,0" if many_shards else rng.choice(["0,0,0", "1,1,0", "2,1,1", "1,0,2", "3,2,0"])]
+        gen_args += ["--sharding", "0,9,0" if many_shards else
+                     rng.choice(["0,0,0", "1,1,0", "2,1,1", "1,0,2", "3,2,0"]) if not gappy else ("3,0,0" if i == 11 else "0,0,0")]
+        if gappy:
+            R.count("sharded:3x3x1-grid-" + ("8-minishards-with-gaps" if i == 11 else "one-minishard-three-holes"))
         if many_shards:
             R.count("sharded:512-shard-files")
         if not storage.endswith("gz"):
